@@ -13,7 +13,7 @@ src = os.path.abspath(sys.argv[1])
 only = set(sys.argv[2].split(",")) if len(sys.argv) > 2 else None
 results = {}
 for prop in sorted(os.listdir(src)):
-    for k in ("r1", "r2"):
+    for k in ("r1", "r2", "r3", "r4"):
         d = os.path.join(src, prop, k)
         rid = f"{prop}-{k}"
         if not os.path.isfile(os.path.join(d, "patch.diff")) or (only and rid not in only):
@@ -28,7 +28,7 @@ for prop in sorted(os.listdir(src)):
         for p in ALL:
             env = dict(os.environ, VERIF_REPO=WT)
             if p != prop:
-                env["VERIF_BUDGET_DIV"] = "4"
+                env["VERIF_BUDGET_DIV"] = os.environ.get("REFACTOR_DIV", "4")
             c = sh(os.path.join(V, "check"), p, "--no-evidence", env=env, cwd=V)
             res[p] = c.returncode
             if c.returncode != 0:
@@ -38,4 +38,4 @@ for prop in sorted(os.listdir(src)):
         bad = [p for p, rc in res.items() if rc != 0]
         print(f"{rid}: tests[{tests[:28]}] checks: {'ALL HELD' if not bad else 'ALARMS: ' + ','.join(bad)}", flush=True)
 reset()
-json.dump(results, open("/tmp/refactor_results.json", "w"), indent=1)
+json.dump(results, open(os.environ.get("REFACTOR_OUT", "/tmp/refactor_results.json"), "w"), indent=1)
